@@ -36,13 +36,13 @@ func VerifC13Manifest() {
 	raw := verifMemFileBytes(path)
 	N := len(raw)
 	metaBytes := meta.Bytes()
-	hdr := headerLenWithoutMeta + len(metaBytes)
+	hdr := 8 + 8 + len(metaBytes) // magic, version, metadata
 	verifAssert(N == hdr+16*tuples, "C13.gsfa.manifest: unexpected file size")
 
 	full, err := NewManifest(path, indexmeta.Meta{})
 	verifAssert(err == nil, "C13.gsfa.manifest: the complete manifest does not open")
 	fm := full.Meta()
-	verifAssert(bytes.Equal(fm.Bytes(), metaBytes) && full.Version() == _Version, "C13.gsfa.manifest: the complete manifest opens with other metadata")
+	verifAssert(bytes.Equal(fm.Bytes(), metaBytes) && full.Version() == 5, "C13.gsfa.manifest: the complete manifest opens with other metadata")
 	all, err := full.ReadAll()
 	verifAssert(err == nil && len(all) == tuples, "C13.gsfa.manifest: the complete manifest does not return its tuples")
 
@@ -62,7 +62,7 @@ func VerifC13Manifest() {
 		return
 	}
 	cm := cut.Meta()
-	verifAssert(cut.Version() == _Version && bytes.Equal(cm.Bytes(), metaBytes), "C13.gsfa.manifest: truncated manifest opens with different metadata")
+	verifAssert(cut.Version() == full.Version() && bytes.Equal(cm.Bytes(), metaBytes), "C13.gsfa.manifest: truncated manifest opens with different metadata")
 	got, err := cut.ReadAll()
 	if err != nil {
 		verifReach("read-error")
